@@ -20,7 +20,20 @@ def build(facts, crates=None):
         p = f["path"]
         if p.startswith("<") and " as core::iter::traits::iterator::Iterator>::next" in p:
             iter_impls[_base(p[1:].split(" as ")[0])] = p
-    for c, f in facts.all_fns(include_tests=False):
+    def normalised():
+        """library crates of the repository: the prepared view (new helper functions are analysed inside their callers)"""
+        for c in facts.crates:
+            if c.is_test:
+                continue
+            if c.fns is c.raw_fns:
+                for p, fl in c.raw_fns.items():
+                    for f in fl:
+                        yield c, f
+            else:
+                for p, fl in c.fns.items():
+                    for f in fl:
+                        yield c, f
+    for c, f in normalised():
         if crates and c.name not in crates:
             continue
         fns[f["path"]] = f
